@@ -67,9 +67,18 @@ def rust_term(t):
     return f"{path}.stub(|{'each' if t['pats'] else '_each'}| {{ {inner}}})"
 
 
-def rust_clause(terms):
-    # nested in chunks of at most 12 so that any number of clauses fits the tuple impls
+def rust_clause(terms, layout=None):
+    """layout=None: nested in chunks of at most 12 so that any number of clauses fits the tuple impls;
+    otherwise a nested list whose leaves are indices into `terms` (left to right: 0..n-1) or None for `()`,
+    rendered as exactly that nest of Rust tuples (every list has 0 or >= 2 elements)"""
     items = [rust_term(t) for t in terms]
+    if layout is not None:
+        def render(l):
+            if l is None: return "()"
+            if isinstance(l, int): return items[l]
+            assert len(l) != 1
+            return "(" + "".join(render(x) + ", " for x in l) + ")"
+        return render(layout)
     def tup(xs):
         if len(xs) == 0: return "()"
         if len(xs) == 1: return "(" + xs[0] + ", ())"
@@ -105,7 +114,7 @@ def prepare_crate(name):
 
 
 def write_gen_rs(name, cases):
-    arms = "\n".join(f"        {k} => mk(partial, {rust_clause(c['terms'])})," for k, c in enumerate(cases))
+    arms = "\n".join(f"        {k} => mk(partial, {rust_clause(c['terms'], c.get('_layout'))})," for k, c in enumerate(cases))
     src = ("// generated by vlib/layer_d.py -- do not edit\n#![allow(unused_parens)]\nuse crate::inventory::*;\n"
            "use unimock::private::Matching;\nuse unimock::*;\n\n"
            "fn mk(partial: bool, c: impl Clause) -> Unimock {\n    if partial { Unimock::new_partial(c) } else { Unimock::new(c) }\n}\n\n"
